@@ -21,6 +21,7 @@ RULE = (
     'AbstractLinearOperator.as_matrix(op) == the same matrix (run for inputs of <= 12 elements); op(x) flattened == '
     'as_matrix() @ flatten(x). non-trivial = >= 2 input or output leaves, or an as_matrix override in the tree.'
     ' Also: diagonal values with the shape of a square leaf on permuted axes; the same operator object several times in one sum; complex coefficients on real and on complex data for einsum blocks, diagonals and block row/column/diagonal operators (as_matrix, generic as_matrix and, on complex data, the transpose).'
+    ' Also (wide): block operators with 9-17 blocks; the generic dense form on a pytree whose first leaf has 257-600 elements.'
 )
 ASSUMPTIONS = [
     'sizes <= ~40 elements; the generic column-by-column as_matrix costs an XLA compile per call and is run on a subset',
